@@ -991,6 +991,56 @@ func racingReplenish(variant int) job {
 	}
 }
 
+
+// replenishMany: one replenish request naming several hundred accounts (the protocol allows 1000)
+// with mixed balances: empty, below, at and above the target, placed at the start, around position
+// 256, in the middle and at the end of the list.  Every account ends at max(balance, target).
+func replenishMany(n int, pool bool) job {
+	return func(w *worker) {
+		ids := w.fresh(n)
+		var accts, pools []int
+		if pool {
+			pools = ids
+		} else {
+			accts = ids
+		}
+		k := w.begin(fmt.Sprintf("repl-many-%d-%v", n, pool), accts, pools)
+		target := cur(1000)
+		seed := func(pos int, amt types.Currency) {
+			if pos < 0 || pos >= len(ids) {
+				return
+			}
+			if pool {
+				k.replenish(rhpx.ReplArgs{Pool: true, Accounts: []int{ids[pos]}, Target: amt, Chal: rhpx.Honest, Second: rhpx.Honest})
+			} else {
+				k.fund(rhpx.FundArgs{Deposits: []rhpx.Deposit{{Account: ids[pos], Amount: amt}}, Sig: rhpx.Honest})
+			}
+		}
+		if n <= 1000 {
+			seed(0, cur(400))
+			seed(1, cur(1000))
+			seed(3, cur(2500))
+			seed(255, cur(999))
+			seed(256, cur(700))
+			seed(257, cur(1))
+			seed(300, cur(5000))
+			seed(511, cur(600))
+			seed(512, cur(1000))
+			seed(n-2, cur(123))
+			seed(n-1, cur(1001))
+			k.observe()
+		}
+		res := k.replenish(rhpx.ReplArgs{Pool: pool, Accounts: ids, Target: target, Chal: rhpx.Honest, Second: rhpx.Honest})
+		if n > 1000 && res.Cls == "ok" {
+			k.c.Oracle("replenish-batch-limit", "a replenish naming %d accounts was accepted", n)
+		}
+		if n <= 1000 && res.Cls != "ok" {
+			k.c.Oracle("funded-request-refused:replenish", "a replenish naming %d accounts was refused: %s", n, res.Cls)
+		}
+		k.done(true, "kind:replenish-many", fmt.Sprintf("accounts:%d", n))
+	}
+}
+
 // history: a random sequence over a small universe of accounts and pools.
 func history(idx int, rng *vh.RNG, steps int) job {
 	return func(w *worker) {
@@ -1120,6 +1170,10 @@ func Run(r *vh.Run) {
 	for v := 0; v < 4; v++ {
 		jobs = append(jobs, racingReplenish(v))
 	}
+	for _, n := range []int{256, 257, 300, 513, 1000, 1001} {
+		jobs = append(jobs, replenishMany(n, false))
+	}
+	jobs = append(jobs, replenishMany(300, true))
 	nh := r.Pick(1500, 20000)
 	steps := r.Pick(30, 60)
 	for i := 0; i < nh; i++ {
